@@ -133,8 +133,14 @@ Lemma limb_val a k : limb a k = (a / 2 ^ (64 * k)) mod 2 ^ 64.
 Proof. unfold limb. rewrite land_max64, N.shiftr_div_pow2. reflexivity. Qed.
 
 (* the highest non-zero limb h at position k: a / 2^(64k) = h *)
-Lemma log2_at_limb a k : a / 2 ^ (64 * (k + 1)) = 0 -> limb a k <> 0 -> 64 * k + 64 <= 256 ->
-  exists r, (let* l := mlog df (limb a k) 2 in u256_add df l (64 * k)) = Ret r /\ is_log 2 a r.
+Lemma u256_add_ok fl a b : a + b < 2 ^ 256 -> u256_add fl a b = Ret (a + b).
+Proof. intros H. unfold u256_add, wq, wq_op. rewrite wide_add_ok by exact H. reflexivity. Qed.
+
+Lemma mlog2_fl fl x : x <> 0 -> mlog fl x 2 = Ret (ilog 2 x).
+Proof. intros H. unfold mlog. replace (x =? 0) with false by (symmetry; apply N.eqb_neq; exact H). reflexivity. Qed.
+
+Lemma log2_at_limb fl a k : a / 2 ^ (64 * (k + 1)) = 0 -> limb a k <> 0 -> 64 * k + 64 <= 256 ->
+  exists r, (let* l := mlog fl (limb a k) 2 in u256_add fl l (64 * k)) = Ret r /\ is_log 2 a r.
 Proof.
   intros Hz Hnz Hk. rewrite limb_val in *.
   assert (P : 0 < 2 ^ (64 * k)) by apply pow2_pos.
@@ -146,13 +152,12 @@ Proof.
     assert (1 <= a / 2 ^ (64 * k) / 2 ^ 64) by (apply N.div_le_lower_bound; [discriminate | lia]). lia. }
   rewrite N.mod_small in * by exact Hh.
   remember (a / 2 ^ (64 * k)) as h.
-  rewrite mlog2_df by exact Hnz. cbn [bind].
+  rewrite mlog2_fl by exact Hnz. cbn [bind].
   pose proof (ilog2_lt64 h ltac:(lia) Hh) as L64.
   destruct (ilog_spec 2 h ltac:(lia) ltac:(lia) Hh) as [L1 L2]. remember (ilog 2 h) as l.
-  rewrite u256_add_df.
   assert (B : l + 64 * k < 2 ^ 256).
   { assert (l + 64 * k < 256) by lia. assert (256 < 2 ^ 256) by (vm_compute; reflexivity). lia. }
-  replace (l + 64 * k <? 2 ^ 256) with true by (symmetry; apply N.ltb_lt; exact B).
+  rewrite u256_add_ok by exact B.
   eexists. split; [reflexivity|].
   assert (D : a = 2 ^ (64 * k) * h + a mod 2 ^ (64 * k)) by (subst h; apply N.div_mod; lia).
   assert (M : a mod 2 ^ (64 * k) < 2 ^ (64 * k)) by (apply N.mod_lt; lia).
@@ -163,16 +168,16 @@ Proof.
   - rewrite <- N.pow_add_r. assert ((h + 1) * K <= 2 ^ (l + 1) * K) by (apply N.mul_le_mono_r; lia). lia.
 Qed.
 
-Lemma u256_log2_correct a : a < 2 ^ 256 ->
-  if a =? 0 then u256_log2 df a = Rev FAILED_ASSERT_SIGNAL
-  else exists r, u256_log2 df a = Ret r /\ is_log 2 a r.
+Lemma u256_log2_fl fl a : unsafemath fl = false -> a < 2 ^ 256 ->
+  if a =? 0 then u256_log2 fl a = Rev FAILED_ASSERT_SIGNAL
+  else exists r, u256_log2 fl a = Ret r /\ is_log 2 a r.
 Proof.
-  intros Ha. unfold u256_log2. cbn [pue unsafemath df negb when].
+  intros Hfl Ha. unfold u256_log2. unfold pue. rewrite Hfl. cbn [negb when].
   destruct (a =? 0) eqn:E0; cbn [negb assert bind]; [reflexivity|].
   apply N.eqb_neq in E0.
   assert (Z4 : a / 2 ^ (64 * (3 + 1)) = 0) by (apply N.div_small; exact Ha).
   destruct (limb a 3 =? 0) eqn:E3; cbn [negb].
-  2:{ apply N.eqb_neq in E3. apply (log2_at_limb a 3 Z4 E3). vm_compute. congruence. }
+  2:{ apply N.eqb_neq in E3. apply (log2_at_limb fl a 3 Z4 E3). vm_compute. congruence. }
   apply N.eqb_eq in E3.
   assert (Z3 : a / 2 ^ (64 * (2 + 1)) = 0).
   { rewrite limb_val in E3. change (64 * (2 + 1)) with (64 * 3).
@@ -180,7 +185,7 @@ Proof.
     { rewrite N.div_div by (try discriminate; vm_compute; congruence). rewrite <- N.pow_add_r. exact Z4. }
     pose proof (N.div_mod (a / 2 ^ (64 * 3)) (2 ^ 64) ltac:(discriminate)) as D. rewrite Q, E3 in D. lia. }
   destruct (limb a 2 =? 0) eqn:E2; cbn [negb].
-  2:{ apply N.eqb_neq in E2. apply (log2_at_limb a 2 Z3 E2). vm_compute. congruence. }
+  2:{ apply N.eqb_neq in E2. apply (log2_at_limb fl a 2 Z3 E2). vm_compute. congruence. }
   apply N.eqb_eq in E2.
   assert (Z2 : a / 2 ^ (64 * (1 + 1)) = 0).
   { rewrite limb_val in E2. change (64 * (1 + 1)) with (64 * 2).
@@ -188,7 +193,7 @@ Proof.
     { rewrite N.div_div by (try discriminate; vm_compute; congruence). rewrite <- N.pow_add_r. exact Z3. }
     pose proof (N.div_mod (a / 2 ^ (64 * 2)) (2 ^ 64) ltac:(discriminate)) as D. rewrite Q, E2 in D. lia. }
   destruct (limb a 1 =? 0) eqn:E1; cbn [negb].
-  2:{ apply N.eqb_neq in E1. apply (log2_at_limb a 1 Z2 E1). vm_compute. congruence. }
+  2:{ apply N.eqb_neq in E1. apply (log2_at_limb fl a 1 Z2 E1). vm_compute. congruence. }
   apply N.eqb_eq in E1.
   assert (Z1 : a / 2 ^ (64 * (0 + 1)) = 0).
   { rewrite limb_val in E1. change (64 * (0 + 1)) with (64 * 1).
@@ -196,16 +201,23 @@ Proof.
     { rewrite N.div_div by (try discriminate; vm_compute; congruence). rewrite <- N.pow_add_r. exact Z2. }
     pose proof (N.div_mod (a / 2 ^ (64 * 1)) (2 ^ 64) ltac:(discriminate)) as D. rewrite Q, E1 in D. lia. }
   destruct (limb a 0 =? 0) eqn:E00; cbn [negb].
-  2:{ apply N.eqb_neq in E00. destruct (log2_at_limb a 0 Z1 E00 ltac:(vm_compute; congruence)) as (r & Er & Lr).
+  2:{ apply N.eqb_neq in E00. destruct (log2_at_limb fl a 0 Z1 E00 ltac:(vm_compute; congruence)) as (r & Er & Lr).
       exists r. split; [|exact Lr].
-      destruct (mlog df (limb a 0) 2) as [l | | |] eqn:El; cbn [bind] in Er; try discriminate.
-      rewrite u256_add_df in Er. change (64 * 0) with 0 in Er. rewrite N.add_0_r in Er.
-      destruct (l <? 2 ^ 256); [exact Er | discriminate]. }
+      rewrite mlog2_fl in Er |- * by exact E00. cbn [bind] in Er. change (64 * 0) with 0 in Er.
+      pose proof (ilog2_lt64 (limb a 0)) as L64.
+      assert (Hl : limb a 0 < 2 ^ 64) by (rewrite limb_val; apply N.mod_lt; discriminate).
+      rewrite u256_add_ok in Er by (rewrite N.add_0_r; specialize (L64 ltac:(lia) Hl); assert (64 < 2 ^ 256) by (vm_compute; reflexivity); lia).
+      rewrite N.add_0_r in Er. exact Er. }
   apply N.eqb_eq in E00. exfalso.
   rewrite limb_val in E00. change (64 * 0) with 0 in E00. change (2 ^ 0) with 1 in E00. rewrite N.div_1_r in E00.
   change (64 * (0 + 1)) with 64 in Z1.
   pose proof (N.div_mod a (2 ^ 64) ltac:(discriminate)) as D. rewrite Z1, E00 in D. lia.
 Qed.
+
+Lemma u256_log2_correct a : a < 2 ^ 256 ->
+  if a =? 0 then u256_log2 df a = Rev FAILED_ASSERT_SIGNAL
+  else exists r, u256_log2 df a = Ret r /\ is_log 2 a r.
+Proof. apply u256_log2_fl. reflexivity. Qed.
 
 (* ---- u256 shifts (WQOP shl/shr never overflow) and wrapping_add/sub/mul (F_WRAPPING set) *)
 Notation wfl := {| unsafemath := false; wrapping := true |}.
